@@ -223,6 +223,7 @@ func runC17(cx *Ctx, r *Report) {
 			}
 		}
 	}
+	cx.lostUpdateRule(r, []string{"oracle"}, 8)
 	r.requireCount("trim-count", 2)
 	r.requireCount("creator-guard", 3)
 	r.requireCount("state-mirror", 4)
